@@ -501,7 +501,13 @@ def shell_stores(ctx: Ctx, rng: random.Random) -> None:
             ctx.violation("shell:disconnected", f"Shell.chop {'refused' if raised else 'accepted'} a list Shell.tla calls "
                           f"{'disconnected' if case['disconnected'] else 'connected'}", rep)
             continue
-        if not raised and written < (12 if ctx.tier == "quick" else 100) and n % 3 == 0:
+        # (four faces may come as two pairs that do not touch each other: no face is solitary, Shell.chop accepts the list and
+        #  chops the first loft - the other pair then has no cells across; the property promises nothing for that, the write is
+        #  asked of lists in ONE piece only)
+        group = {0}
+        for _ in range(len(faces)):
+            group |= {b for b in range(len(faces)) for a in group if {tuple(p) for p in case["shell"][a]} & {tuple(p) for p in case["shell"][b]}}
+        if not raised and len(group) == len(faces) and written < (12 if ctx.tier == "quick" else 100) and n % 3 == 0:
             written += 1
             try:
                 for op in ops:
